@@ -147,3 +147,6 @@ pub proof fn lemma_valb_is_valr(s: Seq<u8>, bits: nat, k: nat)
         vstd::arithmetic::power2::lemma_pow2_pos(bits * m);
     }
 }
+
+/// byte order reversal (big-endian byte forms)
+pub open spec fn rev8(s: Seq<u8>) -> Seq<u8> { Seq::new(s.len(), |i: int| s[s.len() - 1 - i]) }
